@@ -151,13 +151,13 @@ func runC03(c *Ctx) {
 
 // C15: the error identifies the kind of failure (canonical sentences only).
 func runC15(c *Ctx) {
-	c.res.Rule = "same sentence scopes as C03, canonical single-U+0020 sentences over golden words only; the reference classifies each case as valid / count-only / checksum-only / unknown-token and the implementation must return nil / errors.Is ErrWordLen / errors.Is ErrChecksumIncorrect / another non-nil error whose text contains an unknown token. distinct_nontrivial = distinct defective cases"
+	c.res.Rule = "same sentence scopes as C03, canonical single-U+0020 sentences over golden words (plus the same sentences with one separator replaced by a code point that NFKD maps to U+0020); the reference classifies each case as valid / count-only / checksum-only / unknown-token and the implementation must return nil / errors.Is ErrWordLen / errors.Is ErrChecksumIncorrect / another non-nil error whose text contains an unknown token. distinct_nontrivial = distinct defective cases"
 	c.Assume("golden lists are canonical")
 	var mu sync.Mutex
 	ds := newDistinctSet()
 	byVerdict := map[string]int64{}
 	c.forAllSentenceCases(func(sc SCase) {
-		if !sc.Canon {
+		if !sc.Canon && !sc.Equiv {
 			return
 		}
 		v, _ := c.M.ValidateTokens(sc.Tokens, sc.L)
